@@ -27,6 +27,10 @@ func boolToInt(b bool) int {
 }
 
 func merge(kind Kind, key string, a, b []string) []string {
+	if kind != VARIABLE && (len(a) == 0 || len(b) == 0) {
+		// An empty list does not restrict the rule, neither does the union
+		return nil
+	}
 	a = append(a, b...)
 	switch kind {
 	case FILE:
